@@ -324,6 +324,13 @@ def _e2e(arg):
     # two is then not a prefix of the build order, and the side branch on residue 4 lies between them for some choices)
     pl_start, pl_stop = rng.choice([(0, 9), (9, 0), (2, 8), (7, 1), (5, 0), (4, 9), (3, 6), (1, 10)])
     text.append("[ molecule ]\nPL %d %d\n[ persistence_length ]\nWCM %.2f %d %d" % (nch, nch + npl, lp, pl_start, pl_stop))
+    if not small_box:
+        # a geometric restraint that selects exactly the START residue of the persistence entry (the residue the walk begins with, which
+        # need not be the first residue of the molecule): the start point itself has to satisfy it
+        anchor = {"id": 900, "kind": "sphere", "inout": "in", "mname": "PL", "mlo": nch, "mhi": nch + npl, "rn": "RA", "rlo": pl_start + 1, "rhi": pl_start + 2,
+                  "point": [box / 2.0] * 3, "par": [2.901]}
+        ents.append(anchor)
+        text.append("[ molecule ]\nPL %d %d\n[ sphere ]\nRA %d %d in %.3f %.3f %.3f %.3f" % (nch, nch + npl, pl_start + 1, pl_start + 2, box / 2.0, box / 2.0, box / 2.0, 2.901))
     samples = {}
     o_gen = pers.generate_end_end_distances
 
